@@ -43,6 +43,27 @@ Example jobs_early_exit :
   jdone s = true /\ map fst (jtaken s) = [0; 1] /\ exc_value (jexc s) = Some 5.
 Proof. vm_compute. auto. Qed.
 
+(* FINDING: the start-up race of Process.run.  One worker, one job; the worker looks at the shared queue before the
+   parent's feeder thread has made the job visible ([T 0] before [V]) and exits; from then on the main loop
+   polls forever: no number of further polls (nor the late [V]) ends the call, the job is never evaluated *)
+Lemma jobs_termination_refuted :
+  exists (nw : nat) (outs : list (outcome nat nat)) (sched : list jaction),
+    forall k, let s := jrun false (sched ++ repeat JP k) (jstart nw (enum outs)) in
+              jdone s = false /\ jtaken s = [] /\ jq s = enum outs.
+Proof.
+  exists 1, [Ok 7], [T 0; V]. intro k. cbv zeta. unfold jrun. rewrite fold_left_app.
+  change (fold_left (jstep false) [T 0; V] (jstart 1 (enum [Ok 7])))
+    with (J [(0, @Ok nat nat 7)] [[]] [false] true 0 0 1 None [] false).
+  fold (jrun false (repeat JP k) (J [(0, @Ok nat nat 7)] [[]] [false] true 0 0 1 None [] false)).
+  rewrite stuck_forever by reflexivity. simpl. auto.
+Qed.
+
+(* the same schedule with the repaired worker loop: the worker waits, takes the job, the call ends *)
+Example jobsfix_same_schedule_terminates :
+  let s := jrun true [T 0; V; T 0; JP; JP] (@jstart nat nat 1 (enum [Ok 7])) in
+  jdone s = true /\ map fst (jtaken s) = [0].
+Proof. vm_compute. auto. Qed.
+
 (* ---- non-vacuity: finished runs exist for the shapes the theorems talk about ---- *)
 Example nonvacuous_map_three_processes_with_failure :
   let r := run_batch [Ok 1; Exc 2; Ok 3; Ok 4] [F 2; P; F 0; F 1; P; P; P; F 0] (@fresh nat nat 3) in
@@ -63,12 +84,12 @@ Example nonvacuous_batches :
 Proof. vm_compute. repeat constructor. Qed.
 
 Example nonvacuous_jobs_ok :
-  let s := jrun [T 1; T 0; JP; T 1; JP; JP; JP; JP; JP] (@jstart nat nat 2 (enum [Ok 1; Ok 2; Ok 3])) in
+  let s := jrun false [V; T 1; T 0; JP; T 1; JP; JP; JP; JP; JP] (@jstart nat nat 2 (enum [Ok 1; Ok 2; Ok 3])) in
   jdone s = true /\ map fst (jtaken s) = [1; 0; 2].
 Proof. vm_compute. auto. Qed.
 
 Example nonvacuous_jobs_failure :
-  let s := jrun [T 0; T 0; JP; JP; JP] (@jstart nat nat 1 (enum [Ok 1; Exc 2])) in
+  let s := jrun false [V; T 0; T 0; JP; JP; JP] (@jstart nat nat 1 (enum [Ok 1; Exc 2])) in
   jdone s = true /\ exc_value (jexc s) = Some 2.
 Proof. vm_compute. auto. Qed.
 
